@@ -46,6 +46,11 @@ package transport
 // C03/C09: the operation is dispatched only if CreateOperationContext returned no error, at most once, and
 // then no status line other than the implicit 200 is written.
 //@ func (POST).Do [C07,C10,C03,C09,C05,C15]
+// C09 "a request whose execution started is always answered 200, and no resolver has run for any request answered with
+// a non-2xx status": once the response handler has been invoked (resolvers run in there) no panic may leave Do -
+// Server.ServeHTTP answers an escaped panic with 422 (known finding D32: the handler's own panics, e.g. from a custom
+// marshaler, do escape)
+//@   onexit @C09 panicked ==> calls(ResponseHandler) == 0
 // C09: no body before the response headers (negotiated Content-Type, configured headers) are in place
 //@   callsite writeJson: requires calls(writeHeaders) >= 1
 //@   callsite writeJsonError: requires calls(writeHeaders) >= 1
@@ -119,6 +124,11 @@ package transport
 // C09: over GET only query operations are dispatched, and it is the operation selected by the executor
 // (op == opCtx.Operation) that is checked. C03: gate. C10: no own-code panic.
 //@ func (GET).Do [C09,C03,C10,C05]
+// C09 "a request whose execution started is always answered 200, and no resolver has run for any request answered with
+// a non-2xx status": once the response handler has been invoked (resolvers run in there) no panic may leave Do -
+// Server.ServeHTTP answers an escaped panic with 422 (known finding D32: the handler's own panics, e.g. from a custom
+// marshaler, do escape)
+//@   onexit @C09 panicked ==> calls(ResponseHandler) == 0
 // C09: no body before the response headers (negotiated Content-Type, configured headers) are in place
 //@   callsite writeJson: requires calls(writeHeaders) >= 1
 //@   callsite writeJsonError: requires calls(writeHeaders) >= 1
@@ -142,6 +152,11 @@ package transport
 
 // ---------------------------------------------------------------- application/graphql
 //@ func (GRAPHQL).Do [C09,C03,C10,C05]
+// C09 "a request whose execution started is always answered 200, and no resolver has run for any request answered with
+// a non-2xx status": once the response handler has been invoked (resolvers run in there) no panic may leave Do -
+// Server.ServeHTTP answers an escaped panic with 422 (known finding D32: the handler's own panics, e.g. from a custom
+// marshaler, do escape)
+//@   onexit @C09 panicked ==> calls(ResponseHandler) == 0
 // C09: no body before the response headers (negotiated Content-Type, configured headers) are in place
 //@   callsite writeJson: requires calls(writeHeaders) >= 1
 //@   callsite writeJsonError: requires calls(writeHeaders) >= 1
@@ -171,6 +186,11 @@ package transport
 //@   ensures res1 == nil ==> res0 != nil
 //@   safe
 //@ func (UrlEncodedForm).Do [C09,C03,C10,C05]
+// C09 "a request whose execution started is always answered 200, and no resolver has run for any request answered with
+// a non-2xx status": once the response handler has been invoked (resolvers run in there) no panic may leave Do -
+// Server.ServeHTTP answers an escaped panic with 422 (known finding D32: the handler's own panics, e.g. from a custom
+// marshaler, do escape)
+//@   onexit @C09 panicked ==> calls(ResponseHandler) == 0
 // C09: no body before the response headers (negotiated Content-Type, configured headers) are in place
 //@   callsite writeJson: requires calls(writeHeaders) >= 1
 //@   callsite writeJsonError: requires calls(writeHeaders) >= 1
@@ -301,7 +321,9 @@ package transport
 //@   ensures rc != nil
 //@   nopanic
 //@   pure
+// (the closers are the request body and the temporary upload files: Close reports an error, it does not panic)
 //@ trusted (io.Closer).Close() (err)
+//@   nopanic
 //@ trusted (*net/http.Request).MultipartReader() (mr, err)
 //@   ensures err == nil ==> mr != nil
 //@   nopanic
@@ -348,6 +370,11 @@ package transport
 // multipart reader captures r.Body); every temporary file that was created has a deferred removal registered
 // before anything else can fail (ghost counters created/scheduled); gate as for the other transports.
 //@ func (MultipartForm).Do [C10,C03,C09,C05]
+// C09 "a request whose execution started is always answered 200, and no resolver has run for any request answered with
+// a non-2xx status": once the response handler has been invoked (resolvers run in there) no panic may leave Do -
+// Server.ServeHTTP answers an escaped panic with 422 (known finding D32: the handler's own panics, e.g. from a custom
+// marshaler, do escape)
+//@   onexit @C09 panicked ==> calls(ResponseHandler) == 0
 // upload limits: a file is buffered in memory only when the request's length is known and below MaxMemory
 //@   ghost mm = 0 - 1
 //@   at `f.maxMemory()` ghost mm = callres0
